@@ -741,6 +741,9 @@ def gen_doc(rng: random.Random, fam: str, opts: Optional[Dict[str, Any]] = None)
         assert [k for k, _ in R.tree_flatten(doc, root, "Nums")] == [r["start"] for r in ranges]
         stats.update({"pl_nodes": st["nodes"], "pl_depth": st["depth"], "pl_maxfan": st["maxfan"], "pl_ranges": len(ranges)})
         feats["pl_mode_" + shape["mode"]] = 1
+        # in depth-first order the keys ascend unless the kids were shuffled: only then may STRICT mode be asked
+        case["pl_strict_ok"] = not shape.get("shuffle_kids")
+        case["pl_unbalanced"] = st["leaf_depth_levels"] > 1
         if st["direct_kids"]:
             feats["pl_kids_direct_%s_depth%d" % ("all" if st["direct_kids"] == st["nodes"] - 1 else "mixed", st["depth"])] = 1
             stats["pl_direct_kids"] = st["direct_kids"]
@@ -819,6 +822,19 @@ def gen_doc(rng: random.Random, fam: str, opts: Optional[Dict[str, Any]] = None)
         pdf = doc.build(xref="stream", objstm=[n for n in doc.objs])
         feats["xref_stream_objstm"] = 1
     case["pdf"] = pdf
+    # a share of the documents is read without the object cache: every access parses the objects again.
+    # Their lookups come in shuffled order, twice, so that consecutive calls end in different leaves.
+    # (costly: not for documents packed into object streams, at most 16 different lookups)
+    if not opts.get("budget") and "xref_stream_objstm" not in feats and rng.random() < 0.1:
+        case["caching"] = False
+        lk = list(case["lookups"])
+        if len(lk) > 16:
+            lk = rng.sample(lk, 16)
+        a, b = list(lk), list(lk)
+        rng.shuffle(a)
+        rng.shuffle(b)
+        case["lookups"] = a + b
+        feats["caching_off"] = 1
     case["feats"] = feats
     case["stats"] = stats
     return case
